@@ -64,3 +64,36 @@ fn c01_compute_error_body<const N: usize, const ORDER: usize>() {
 fn c01_compute_error_n3_o1() {
     c01_compute_error_body::<3, 1>();
 }
+
+// ================================================================================================
+// C10: the window cache key
+// ================================================================================================
+
+/// Two (window, size) pairs share a cache entry only if they denote the same window: equal size
+/// and either both rectangular or Tukey with bit-identical alpha -- in particular two alphas that
+/// differ by less than 2^-16 never share an entry.  Complete over all f32 pairs in [0, 1].
+//@ unit props=C10 tier=quick kind=complete timeout=300 funcs="lpc::fingerprint_window; lpc::WindowKey::new"
+#[kani::proof]
+#[kani::unwind(4)]
+fn c10_window_key_injective() {
+    let a1: f32 = kani::any();
+    let a2: f32 = kani::any();
+    kani::assume(0.0 <= a1 && a1 <= 1.0 && 0.0 <= a2 && a2 <= 1.0);
+    let r1: bool = kani::any();
+    let r2: bool = kani::any();
+    let w1 = if r1 { Window::Rectangle } else { Window::Tukey { alpha: a1 } };
+    let w2 = if r2 { Window::Rectangle } else { Window::Tukey { alpha: a2 } };
+    let n1: usize = kani::any();
+    let n2: usize = kani::any();
+    let k1 = WindowKey::new(n1, &w1);
+    let k2 = WindowKey::new(n2, &w2);
+    if k1 == k2 {
+        assert!(n1 == n2);
+        assert!(r1 == r2);
+        if !r1 {
+            assert!(a1.to_bits() == a2.to_bits());
+        }
+    }
+    kani::cover!(k1 == k2 && !r1);
+    kani::cover!(k1 != k2 && !r1 && !r2 && n1 == n2 && (a1 - a2) < 0.00001 && (a2 - a1) < 0.00001);
+}
